@@ -115,6 +115,13 @@ def find_slice(qualname):
     if spec is None or base is None:
         return None
     body = base.node.body
+    for inside in ([spec["inside"]] if isinstance(spec.get("inside"), str) else spec.get("inside", [])):
+        # descend into the body of the (unique) compound statement whose source starts with `inside`: the slice is a run
+        # of statements of a loop / if body; the loop variables are free names of the slice like any other
+        outer = [b for b in body if ast.unparse(b).startswith(inside) and hasattr(b, "body")]
+        if len(outer) != 1:
+            return None
+        body = outer[0].body
     srcs = [ast.unparse(b) for b in body]
     i0 = [i for i, t in enumerate(srcs) if t.startswith(spec["first"])]
     i1 = [i for i, t in enumerate(srcs) if t.startswith(spec["last"])]
@@ -197,5 +204,5 @@ DROPPED = [
     "type annotations", "docstrings", "log.* calls (and f-strings that are only their arguments)",
     "Timing context managers (body kept)", "debug_info[...] writes into the process-wide debug store",
     "if debug: model.dump(...)",
-    "slices (qualname@tag): all statements of the function before and after the slice; free names of the slice are arbitrary parameters",
+    "slices (qualname@tag): all statements of the function before and after the slice (for a slice `inside` a loop body: the loop itself - one iteration for arbitrary values of the loop variables); free names of the slice are arbitrary parameters",
 ]
